@@ -95,6 +95,7 @@ class Runner:
         self.state = None
         self.history = None
         self.bad = None
+        self.yielded = []
 
     def reset(self):
         self.numpoly.set_options(**self.defaults)
@@ -135,6 +136,7 @@ class Runner:
                 try:
                     with (prepared if prepared is not None else
                           numpoly.global_options(**opts)) as yielded:
+                        self.yielded.append(yielded)
                         self.state.update(opts)
                         self.check(pos, step)
                         if yielded != self.state and self.bad is None:
@@ -149,6 +151,8 @@ class Runner:
                     raised = err
                     pos = err.args[0]
                 # block left: complete previous option set must be back
+                if len(self.yielded) > depth:
+                    del self.yielded[depth:]
                 self.state = saved
                 self.check(pos - 1, "after leaving block")
             elif step == "exit":
@@ -196,6 +200,12 @@ class Runner:
                 got["retain_names"] = "mutated"
                 got["sort_graded"] = "mutated"
                 got["new_key"] = 1
+                if self.yielded:
+                    # ... and the dictionary the innermost open block handed out ("as options")
+                    inner = self.yielded[-1]
+                    if isinstance(inner, dict):
+                        inner["sort_reverse"] = "mutated"
+                        inner["scratch_key"] = 5
                 self.check(pos, step)
                 pos += 1
             elif step == "mutate_defaults":
@@ -213,6 +223,7 @@ class Runner:
     def run_history(self, history):
         self.reset()
         self.bad = None
+        self.yielded = []
         self.history = history
         self.check(-1, "reset")
         try:
